@@ -163,6 +163,9 @@ REGISTRY["C12"] = {
     "tests": [
         {"name": "TestC12Metamorphic", "checks": {"quick": 80, "thorough": 2500}, "shards": {"quick": 16, "thorough": 32}, "gomaxprocs": [4, 1, 2, 16]},
         {"name": "TestC12MultiStart", "checks": {"quick": 250, "thorough": 6000}, "shards": {"quick": 8, "thorough": 16}, "gomaxprocs": [4, 16, 2, 1]},
+        # event nodes inside sub-processes behave (and announce themselves) like their inline counterparts: the C11 campaign, whose catch events sit at process
+        # level or inside 1..2 nested sub-processes, is part of this check
+        {"name": "TestC11Delivery", "pkg": "props/c11", "label": "catch-events-inside-sub-processes", "checks": {"quick": 100, "thorough": 3000}, "shards": {"quick": 4, "thorough": 8}},
         {"name": "TestC12Metamorphic", "label": "TestC12Metamorphic-unrestricted", "env": {"VERIF_UNRESTRICTED": "1"},
          "checks": {"quick": 60, "thorough": 1000}, "shards": {"quick": 4, "thorough": 8}},
     ],
